@@ -44,8 +44,19 @@ class Recorder:
         v = self.V[int(a) - self.fixer][int(b) - self.fixer]
         return float(v)
 
-def make_elicitor(V, memoize=True, zi=True, integer=False):
+def make_elicitor(V, memoize=True, zi=True, integer=False, eclass="lambda"):
     from socialchoicekit.elicitation_utils import LambdaElicitor, IntegerLambdaElicitor
+    if eclass == "profile_int":
+        # the valuation profile itself, stored with an integer dtype, behind the library's own elicitor class
+        from socialchoicekit.elicitation_utils import ValuationProfileElicitor
+        from socialchoicekit.profile_utils import ValuationProfile
+        el = ValuationProfileElicitor(ValuationProfile.of(np.array(V).astype(np.int64)), memoize=memoize)
+        rec = Recorder(V, 0, False)
+        orig = el._elicit_impl
+        def impl(a, b):
+            rec.trace.append((int(a), int(b))); return orig(a, b)
+        el._elicit_impl = impl
+        return el, rec
     rec = Recorder(V, 0 if zi else 1, integer)
     cls = IntegerLambdaElicitor if integer else LambdaElicitor
     return cls(rec, memoize=memoize, zero_indexed=zi), rec
@@ -94,13 +105,13 @@ def run_rule(case, V=None, deadline=20.0, fork=False):
                 sim(StrictCompleteProfile.of(np.array(pre["P"], dtype=np.int64)), pe)
             except Exception:  # noqa
                 pass
-        el, rec = make_elicitor(V, case.get("memoize", True), case.get("ezi", True))
+        el, rec = make_elicitor(V, case.get("memoize", True), case.get("ezi", True), eclass=case.get("eclass", "lambda"))
         vt = sim(prof, el)
         if rule == "M2Q":
             res["rootn"] = [int(x) for x in root_n_serial_dictatorship(prof)]
         res.update(vt=np.asarray(vt).tolist(), trace=list(rec.trace), count=el.elicitation_count)
         if case.get("want_out"):
-            el2, _ = make_elicitor(V, True, True)
+            el2, _ = make_elicitor(V, True, True, eclass=case.get("eclass", "lambda"))
             out = r.scf(prof, el2)
             res["out"] = np.asarray(out).tolist() if not isinstance(out, (int, np.integer)) else int(out)
         res["mutated"] = P.tobytes() != P0.tobytes()
